@@ -21,11 +21,23 @@ func propC12() *fw.Prop {
 	}
 }
 
+// Texts for which no reading of the declared type exists: the expected error class is a function
+// of the text. (Texts a lenient reader could legitimately accept — blanks around a number, other
+// numeral notations, full-width digits — are in arguableByType and only go through the crash and
+// atomicity monitors.)
 var hostileByType = map[string][]struct{ text, class string }{
-	"number":   {{"", model.EBadNumber}, {"abc", model.EBadNumber}, {"1.5", model.EBadNumber}, {"１２", model.EBadNumber}, {" 5", model.EBadNumber}, {"5 ", model.EBadNumber}, {"0x10", model.EBadNumber}, {"1e3", model.EBadNumber}, {"--5", model.EBadNumber}, {"5-", model.EBadNumber}, {"1_000", model.EBadNumber}},
-	"monetary": {{"", model.EBadMonetary}, {"USD", model.EBadMonetary}, {"USD 1 2", model.EBadMonetary}, {"USD  1", model.EBadMonetary}, {"USD x", model.EBadNumber}, {"USD 1.0", model.EBadNumber}, {"USD ", model.EBadNumber}, {"USD 0x1F", model.EBadNumber}, {"USD 1e2", model.EBadNumber}},
-	"portion":  {{"", model.EBadPortion}, {"abc", model.EBadPortion}, {"150%", model.EBadPortion}, {"3/2", model.EBadPortion}, {"1/0", model.EBadPortion}, {"0/0", model.EBadPortion}, {"1/00", model.EBadPortion}, {"0/000", model.EBadPortion}, {"7 / 00", model.EBadPortion}, {"12/ 0", model.EBadPortion}, {"00/00", model.EBadPortion}, {"101%", model.EBadPortion}, {"100.0001%", model.EBadPortion}, {"2/1", model.EBadPortion}, {"%", model.EBadPortion}, {"1/", model.EBadPortion}, {"/2", model.EBadPortion}, {"1/2%", model.EBadPortion}, {"0x1/2", model.EBadPortion}, {"1e0/2", model.EBadPortion}, {"-1/2", model.EBadPortion}, {"1//2", model.EBadPortion}, {"50", model.EBadPortion}, {"50 %", model.EBadPortion}, {"1/2/3", model.EBadPortion}, {".5%", model.EBadPortion}, {"100.1%", model.EBadPortion}, {"1/2 ", model.EBadPortion}},
-	"account":  {{"", model.EBadAccount}, {"<kept>", model.EBadAccount}, {"a b", model.EBadAccount}, {"@a", model.EBadAccount}, {"a:", model.EBadAccount}, {"é", model.EBadAccount}, {"a\n", model.EBadAccount}},
+	"number":   {{"", model.EBadNumber}, {"abc", model.EBadNumber}, {"--5", model.EBadNumber}, {"5-", model.EBadNumber}, {"USD 5", model.EBadNumber}, {"1/2", model.EBadNumber}, {"@a", model.EBadNumber}},
+	"monetary": {{"", model.EBadMonetary}, {"USD", model.EBadMonetary}, {"USD 1 2", model.EBadMonetary}, {"USD x", model.EBadNumber}, {"USD --1", model.EBadNumber}, {"USD @a", model.EBadNumber}},
+	"portion": {{"", model.EBadPortion}, {"abc", model.EBadPortion}, {"150%", model.EBadPortion}, {"3/2", model.EBadPortion}, {"1/0", model.EBadPortion}, {"0/0", model.EBadPortion}, {"1/00", model.EBadPortion}, {"0/000", model.EBadPortion}, {"7 / 00", model.EBadPortion}, {"12/ 0", model.EBadPortion}, {"00/00", model.EBadPortion},
+		{"101%", model.EBadPortion}, {"100.0001%", model.EBadPortion}, {"2/1", model.EBadPortion}, {"%", model.EBadPortion}, {"1/", model.EBadPortion}, {"/2", model.EBadPortion}, {"-1/2", model.EBadPortion}, {"1//2", model.EBadPortion}, {"1/2/3", model.EBadPortion}, {"1/2%", model.EBadPortion}, {"USD 5", model.EBadPortion}},
+	"account": {{"", model.EBadAccount}, {"<kept>", model.EBadAccount}, {"a b", model.EBadAccount}, {"a:", model.EBadAccount}, {"a\n", model.EBadAccount}, {":a", model.EBadAccount}, {"a::b", model.EBadAccount}},
+}
+
+var arguableByType = map[string][]string{
+	"number":   {"1.5", "１２", " 5", "5 ", "0x10", "1e3", "1_000", "+5", "٣"},
+	"monetary": {"USD  1", "USD 1.0", "USD ", "USD 0x1F", "USD 1e2", " USD 1", "USD 1 ", "USD +1"},
+	"portion":  {"50", "50 %", ".5%", "1/2 ", " 1/2", "0x1/2", "1e0/2", "5e-1", "0.5", "１/２"},
+	"account":  {"@a", "é", "A.B", "a/b"},
 }
 
 type fault struct {
@@ -73,6 +85,12 @@ func plant(r *rng.R, cs *gen.Case) *fault {
 				continue
 			}
 			d := plain[r.Intn(len(plain))]
+			if as := arguableByType[d.Type]; len(as) > 0 && r.Chance(1, 4) {
+				// texts a lenient reader may accept: crash and atomicity monitors only
+				t := as[r.Intn(len(as))]
+				cs.Vars[d.Name] = t
+				return &fault{kind: "var-text-arguable:" + d.Type + ":" + t, anyOutcome: true}
+			}
 			hs := hostileByType[d.Type]
 			if len(hs) == 0 {
 				continue
@@ -86,7 +104,9 @@ func plant(r *rng.R, cs *gen.Case) *fault {
 				h.class = model.EBadPortion
 			}
 			cs.Vars[d.Name] = h.text
-			return &fault{kind: "var-text:" + d.Type + ":" + h.text, classes: []string{h.class}}
+			// (a lenient reader that accepts the text with the value it had is not a C12 violation:
+			// the outcome may also equal the control's)
+			return &fault{kind: "var-text:" + d.Type + ":" + h.text, classes: []string{h.class}, mayBeUnreached: true}
 		case 1: // missing variable
 			if len(plain) == 0 {
 				continue
@@ -480,8 +500,11 @@ func runC12(c *fw.Ctx) {
 
 func hostileOrGood(r *rng.R, typ string) string {
 	if r.Chance(1, 3) {
-		if hs := hostileByType[typ]; len(hs) > 0 {
+		if hs := hostileByType[typ]; len(hs) > 0 && r.Bool() {
 			return hs[r.Intn(len(hs))].text
+		}
+		if as := arguableByType[typ]; len(as) > 0 {
+			return as[r.Intn(len(as))]
 		}
 	}
 	switch typ {
